@@ -417,25 +417,28 @@ func (V *Verifier) checkProperty(prop string, verbose bool, t0 time.Time) int {
 	}
 	level := "proof"
 	cov := map[string]interface{}{
-		"obligations":              nReal,
-		"discharged":               nDis,
-		"checker_cmd":              fmt.Sprintf("./bin/govc check %s --tier %s", prop, V.tier),
-		"trusted_base":             trustedBase(ext, asm),
-		"functions_under_contract": fuc,
-		"inlined_bodies":           sortedSet(inl),
-		"extern_models_used":       sortedSet(ext),
-		"assumed_contracts":        sortedSet(asm),
-		"paths":                    paths,
-		"by_backend":               byBackend,
-		"solver_time_s":            round2(solverTime),
-		"max_query_bytes":          maxBytes,
-		"samples":                  samples,
-		"undecided":                undecided,
-		"known_findings_reported":  len(known),
-		"scan_obligations":         len(scan),
-		"lemma_obligations":        len(lem),
-		"not_decided_sentences":    notDecided[prop],
-		"bounded_standins":         bounded,
+		// obligations of the claim: those that fail as recorded open findings are reported separately (KNOWN-FINDING
+		// lines, known_finding_obligations) and are not part of what is claimed proved
+		"obligations":               nReal - len(known),
+		"discharged":                nDis,
+		"known_finding_obligations": len(known),
+		"checker_cmd":               fmt.Sprintf("./bin/govc check %s --tier %s", prop, V.tier),
+		"trusted_base":              trustedBase(ext, asm),
+		"functions_under_contract":  fuc,
+		"inlined_bodies":            sortedSet(inl),
+		"extern_models_used":        sortedSet(ext),
+		"assumed_contracts":         sortedSet(asm),
+		"paths":                     paths,
+		"by_backend":                byBackend,
+		"solver_time_s":             round2(solverTime),
+		"max_query_bytes":           maxBytes,
+		"samples":                   samples,
+		"undecided":                 undecided,
+		"known_findings_reported":   len(known),
+		"scan_obligations":          len(scan),
+		"lemma_obligations":         len(lem),
+		"not_decided_sentences":     notDecided[prop],
+		"bounded_standins":          bounded,
 	}
 	ev := Evidence{PropertyID: prop, Tier: V.tier, Seed: V.seed, Level: level, Coverage: cov, Assumptions: assumptionsFor(prop), WallS: round2(time.Since(t0).Seconds()), Violations: violations}
 	evDir := "/verif/evidence"
